@@ -421,6 +421,12 @@ inline std::string crash_kind(std::string const &err, int status, bool hang)
   if (hang)
     return "hang";
   std::size_t p;
+  if ((p = err.find("VRT-EXCEPTION: ")) != std::string::npos)
+  {
+    std::size_t b = p + std::strlen("VRT-EXCEPTION: ");
+    std::size_t e = err.find_first_of(":\n", b);
+    return "exception:" + err.substr(b, e - b);
+  }
   if ((p = err.find("ERROR: AddressSanitizer: ")) != std::string::npos)
   {
     std::size_t b = p + std::strlen("ERROR: AddressSanitizer: ");
